@@ -1,20 +1,258 @@
 (* Proofs for C18 (CIDR expansion). *)
-From Coq Require Import NArith List Bool Lia.
+From Coq Require Import NArith Arith List Bool Lia ZifyBool.
 From PS Require Import Base.Chars Base.Outcome Model.SString Spec.Items Model.Cidr Spec.Net.
 Import ListNotations.
 Open Scope N_scope.
+Arguments N.mul : simpl never.
+Arguments N.add : simpl never.
+Arguments N.pow : simpl never.
 
-(* ------------------------------------------------------------------ IPv6: the coverage statement is false *)
-(* 2001:db8::/64 expands to the single pattern "2001:db8::", which does not match 2001:db8::1 *)
-Lemma v6_cover_refuted :
-  exists a len x pats,
-    wf_net 128 a len /\ in_net 128 a len x /\
-    expand6 a len None = Ok pats /\ covered pats (show6 x) = false.
+(* ------------------------------------------------------------------ wildcard matching of plain text *)
+Definition plainc (c : char) : bool := negb (is_special c) && negb (N.eqb c c_bs).
+
+Lemma iparse_plain_app x r : forallb plainc x = true -> iparse (x ++ r) = map Lit x ++ iparse r.
 Proof.
-  exists 42540766411282592856903984951653826560, 64, 42540766411282592856903984951653826561.
-  eexists. split; [|split; [|split]].
-  - unfold wf_net. repeat split; try (vm_compute; congruence).
-  - unfold in_net. split; vm_compute; congruence.
-  - vm_compute. reflexivity.
-  - vm_compute. reflexivity.
+  induction x as [|a x IH]; intros H; [reflexivity|].
+  cbn [forallb] in H. apply andb_true_iff in H. destruct H as [Ha Hx].
+  unfold plainc in Ha. apply andb_true_iff in Ha. destruct Ha as [H1 H2].
+  apply negb_true_iff in H1. apply negb_true_iff in H2.
+  cbn [app iparse map]. rewrite H2, H1. f_equal. exact (IH Hx).
+Qed.
+
+Lemma wild_lit_app x q t :
+  wild_match (map Lit x ++ q) t = true <-> exists t', t = x ++ t' /\ wild_match q t' = true.
+Proof.
+  revert t. induction x as [|a x IH]; intros t; cbn [map app].
+  - split; [intros H; exists t; auto | intros [t' [-> H]]; exact H].
+  - cbn [wild_match]. destruct t as [|b t].
+    + split; [discriminate | intros [t' [H _]]; discriminate].
+    + rewrite andb_true_iff, N.eqb_eq, IH. split.
+      * intros [-> [t' [-> H]]]. exists t'. auto.
+      * intros [t' [E H]]. inversion E; subst. split; [reflexivity | exists t'; auto].
+Qed.
+
+Lemma wild_star t : wild_match [Multi] t = true.
+Proof. induction t as [|a t IH]; [reflexivity|]. cbn in *. exact IH. Qed.
+
+Lemma wild_nil t : wild_match [] t = true <-> t = [].
+Proof. destruct t; cbn; split; congruence. Qed.
+
+Lemma wild_lits x t : wild_match (map Lit x) t = true <-> t = x.
+Proof.
+  rewrite <- (app_nil_r (map Lit x)), wild_lit_app. split.
+  - intros [t' [-> H]]. apply wild_nil in H. subst. apply app_nil_r.
+  - intros ->. exists []. split; [symmetry; apply app_nil_r | reflexivity].
+Qed.
+
+(* ------------------------------------------------------------------ nseq *)
+Lemma In_nseq n o : In o (nseq n) <-> o < n.
+Proof.
+  unfold nseq. rewrite in_map_iff. split.
+  - intros [k [<- Hk]]. apply in_seq in Hk. lia.
+  - intros H. exists (N.to_nat o). split; [apply N2Nat.id | apply in_seq; lia].
+Qed.
+
+(* ------------------------------------------------------------------ decimal octet text followed by '.' is prefix-free *)
+Definition dotdec (o : N) : str := dec3 o ++ [c_dot].
+
+Definition pf_check : bool :=
+  forallb (fun x => forallb (fun y => (x =? y) || negb (prefixb (dotdec x) (dotdec y))) (nseq 256)) (nseq 256).
+Lemma pf_check_ok : pf_check = true.
+Proof. vm_compute. reflexivity. Qed.
+
+Lemma dotdec_prefix_free x y : x < 256 -> y < 256 -> prefixb (dotdec x) (dotdec y) = true -> x = y.
+Proof.
+  intros Hx Hy H. pose proof pf_check_ok as C. unfold pf_check in C.
+  rewrite forallb_forall in C. specialize (C x (proj2 (In_nseq _ _) Hx)).
+  rewrite forallb_forall in C. specialize (C y (proj2 (In_nseq _ _) Hy)).
+  rewrite H in C. cbn in C. rewrite orb_false_r in C. apply N.eqb_eq in C. exact C.
+Qed.
+
+Lemma dotdec_inj x y r1 r2 : x < 256 -> y < 256 -> dotdec x ++ r1 = dotdec y ++ r2 -> x = y /\ r1 = r2.
+Proof.
+  intros Hx Hy E.
+  assert (x = y) as ->.
+  { destruct (app_eq_app _ _ _ _ E) as [l [[E1 _]|[E1 _]]].
+    - symmetry. apply dotdec_prefix_free; auto. apply prefixb_spec. exists l. exact E1.
+    - apply dotdec_prefix_free; auto. apply prefixb_spec. exists l. exact E1. }
+  split; [reflexivity | exact (app_inv_head _ _ _ E)].
+Qed.
+
+Lemma dec3_inj x y : x < 256 -> y < 256 -> dec3 x = dec3 y -> x = y.
+Proof.
+  intros Hx Hy E. destruct (dotdec_inj x y [] [] Hx Hy) as [H _]; [|exact H].
+  unfold dotdec. rewrite E. reflexivity.
+Qed.
+
+Definition plain_check : bool := forallb (fun x => forallb plainc (dotdec x)) (nseq 256).
+Lemma plain_check_ok : plain_check = true.
+Proof. vm_compute. reflexivity. Qed.
+Lemma dotdec_plain o : o < 256 -> forallb plainc (dotdec o) = true.
+Proof.
+  intros H. pose proof plain_check_ok as C. unfold plain_check in C.
+  rewrite forallb_forall in C. exact (C o (proj2 (In_nseq _ _) H)).
+Qed.
+Lemma dec3_plain o : o < 256 -> forallb plainc (dec3 o) = true.
+Proof.
+  intros H. pose proof (dotdec_plain o H) as C. unfold dotdec in C.
+  rewrite forallb_app in C. apply andb_true_iff in C. tauto.
+Qed.
+
+Lemma digit_not_star n : (digit n =? c_star) = false.
+Proof. apply N.eqb_neq. unfold digit, c_star. lia. Qed.
+Lemma dec3_not_star o r : str_eqb (dec3 o ++ r) [c_star] = false.
+Proof.
+  unfold dec3. destruct (o <? 10); [|destruct (o <? 100)]; cbn [app str_eqb];
+    rewrite digit_not_star; reflexivity.
+Qed.
+
+(* the octet tables of Spec.Net *)
+Lemma octet_dot_table_eq : octet_dot_table = map (fun o => (o, dotdec o)) (nseq 256).
+Proof. vm_compute. reflexivity. Qed.
+Lemma octet_table_eq : octet_table = map (fun o => (o, dec3 o)) (nseq 256).
+Proof. vm_compute. reflexivity. Qed.
+
+Lemma read_octet_dot_spec s o r :
+  read_octet_dot s = Some (o, r) -> o < 256 /\ s = dotdec o ++ r.
+Proof.
+  unfold read_octet_dot. destruct (find _ octet_dot_table) as [[o' t]|] eqn:F; [|discriminate].
+  intros E. inversion E; subst. apply find_some in F. destruct F as [Hin Hp].
+  rewrite octet_dot_table_eq in Hin. apply in_map_iff in Hin. destruct Hin as [k [Ek Hk]].
+  inversion Ek; subst. apply In_nseq in Hk. split; [exact Hk|].
+  cbn [snd] in Hp. apply prefixb_spec in Hp. destruct Hp as [r' ->].
+  rewrite skipn_app, skipn_all, Nat.sub_diag. reflexivity.
+Qed.
+
+Lemma read_octet_dot_dotdec o r : o < 256 -> read_octet_dot (dotdec o ++ r) = Some (o, r).
+Proof.
+  intros Ho. unfold read_octet_dot.
+  destruct (find (fun ot => prefixb (snd ot) (dotdec o ++ r)) octet_dot_table) as [[o' t]|] eqn:F.
+  - pose proof F as F'. apply find_some in F'. destruct F' as [Hin Hp].
+    rewrite octet_dot_table_eq in Hin. apply in_map_iff in Hin. destruct Hin as [k [Ek Hk]].
+    inversion Ek; subst. apply In_nseq in Hk. cbn [snd] in Hp.
+    apply prefixb_spec in Hp. destruct Hp as [r' E].
+    destruct (dotdec_inj _ _ _ _ Ho Hk E) as [<- _].
+    rewrite skipn_app, skipn_all, Nat.sub_diag. reflexivity.
+  - exfalso. pose proof (find_none _ _ F (o, dotdec o)) as C.
+    cbn [snd] in C. rewrite prefixb_app in C.
+    assert (In (o, dotdec o) octet_dot_table); [|intuition discriminate].
+    rewrite octet_dot_table_eq. apply in_map_iff. exists o. split; [reflexivity | apply In_nseq; exact Ho].
+Qed.
+
+Lemma find_octet_spec s o t :
+  find (fun ot => str_eqb (snd ot) s) octet_table = Some (o, t) -> o < 256 /\ s = dec3 o.
+Proof.
+  intros F. apply find_some in F. destruct F as [Hin Hp].
+  rewrite octet_table_eq in Hin. apply in_map_iff in Hin. destruct Hin as [k [Ek Hk]].
+  inversion Ek; subst. apply In_nseq in Hk. split; [exact Hk|].
+  cbn [snd] in Hp. apply str_eqb_eq in Hp. auto.
+Qed.
+
+Lemma find_octet_dec3 o : o < 256 ->
+  exists t, find (fun ot => str_eqb (snd ot) (dec3 o)) octet_table = Some (o, t).
+Proof.
+  intros Ho. destruct (find _ octet_table) as [[o' t]|] eqn:F.
+  - destruct (find_octet_spec _ _ _ F) as [Ho' E]. apply dec3_inj in E; auto. subst. eauto.
+  - exfalso. pose proof (find_none _ _ F (o, dec3 o)) as C. cbn [snd] in C. rewrite str_eqb_refl in C.
+    assert (In (o, dec3 o) octet_table); [|intuition discriminate].
+    rewrite octet_table_eq. apply in_map_iff. exists o. split; [reflexivity | apply In_nseq; exact Ho].
+Qed.
+
+(* ------------------------------------------------------------------ octet lists as numbers *)
+Fixpoint val (os : list N) : N :=
+  match os with [] => 0 | o :: r => o * p256 (length r) + val r end.
+Definition show_os (os : list N) : str := join [c_dot] (map dec3 os).
+Definition octets_ok (os : list N) : Prop := Forall (fun o => o < 256) os.
+
+Lemma p256_pos w : 0 < p256 w.
+Proof. induction w; cbn [p256]; lia. Qed.
+
+Lemma val_bound os : octets_ok os -> val os < p256 (length os).
+Proof.
+  induction 1 as [|o r Ho _ IH]; cbn [val length p256]; [lia|].
+  pose proof (p256_pos (length r)). nia.
+Qed.
+
+Lemma show_os_cons o o' r : show_os (o :: o' :: r) = dotdec o ++ show_os (o' :: r).
+Proof. unfold show_os, dotdec. cbn [map join]. rewrite <- app_assoc. reflexivity. Qed.
+
+Lemma pat_dotdec o r t : o < 256 ->
+  pat_matches (dotdec o ++ r) t = true <-> exists t', t = dotdec o ++ t' /\ pat_matches r t' = true.
+Proof.
+  intros Ho. unfold pat_matches. rewrite iparse_plain_app by (apply dotdec_plain; exact Ho).
+  apply wild_lit_app.
+Qed.
+
+Lemma pat_star t : pat_matches [c_star] t = true.
+Proof. unfold pat_matches. change (iparse [c_star]) with [Multi]. apply wild_star. Qed.
+
+(* Correctness of the pattern reader: the range it returns is exactly the set of octet lists whose
+   dotted text the pattern matches (and it lies inside the block selected by acc). *)
+Lemma prange4_ok : forall w acc s lo hi,
+  prange4 w acc s = Some (lo, hi) ->
+  (acc * p256 w <= lo /\ hi <= (acc + 1) * p256 w) /\
+  forall os, length os = w -> octets_ok os ->
+    (pat_matches s (show_os os) = true <-> lo <= acc * p256 w + val os /\ acc * p256 w + val os < hi).
+Proof.
+  induction w as [|w IH]; intros acc s lo hi H; [discriminate|].
+  cbn [prange4] in H. destruct (str_eqb s [c_star]) eqn:Es.
+  { apply str_eqb_eq in Es. subst s. injection H as <- <-. cbn [p256]. split; [split; apply N.le_refl|].
+    intros os Hl Hok. pose proof (val_bound os Hok) as B. rewrite Hl in B.
+    rewrite pat_star. cbn [p256] in B. clear IH. generalize dependent (p256 w). intros P B.
+    split; [intros _; nia | reflexivity]. }
+  destruct w as [|w'].
+  - destruct (find _ octet_table) as [[o t]|] eqn:F; [|discriminate].
+    injection H as <- <-. destruct (find_octet_spec _ _ _ F) as [Ho ->].
+    cbn [p256]. split; [lia|].
+    intros os Hl Hok. destruct os as [|o' [|? ?]]; try discriminate.
+    inversion Hok; subst. cbn [val length p256 show_os map join].
+    unfold pat_matches. rewrite <- (app_nil_r (dec3 o)), iparse_plain_app by (apply dec3_plain; exact Ho).
+    cbn [iparse]. rewrite app_nil_r, wild_lits. split.
+    + intros E. apply dec3_inj in E; auto. lia.
+    + intros [A B]. assert (o' = o) by lia. subst. reflexivity.
+  - destruct (read_octet_dot s) as [[o r]|] eqn:R; [|discriminate].
+    destruct (read_octet_dot_spec _ _ _ R) as [Ho ->].
+    destruct (IH _ _ _ _ H) as [[B1 B2] M]. clear IH.
+    pose proof (p256_pos (S w')) as P. remember (S w') as w eqn:Ew.
+    cbn [p256]. split; [nia|].
+    intros os Hl Hok. destruct os as [|o' os']; [discriminate|].
+    cbn [length] in Hl. injection Hl as Hl. inversion Hok as [|? ? Ho' Hok']; subst x l.
+    destruct os' as [|o'' os'']; [subst; discriminate|].
+    rewrite show_os_cons, pat_dotdec by exact Ho.
+    remember (o'' :: os'') as os1 eqn:Eos1. clear Eos1 Hok.
+    cbn [val]. rewrite Hl. pose proof (val_bound _ Hok') as VB. rewrite Hl in VB.
+    specialize (M _ Hl Hok'). split.
+    + intros [t' [E Hm]]. apply dotdec_inj in E; auto. destruct E as [<- <-].
+      apply M in Hm. nia.
+    + intros [A B]. assert (o' = o) by nia. subst o'. exists (show_os os1). split; [reflexivity|].
+      apply M. nia.
+Qed.
+
+(* IPv4 addresses as octet lists *)
+Lemma octs4_ok a : octets_ok (octs4 a).
+Proof. unfold octs4. repeat constructor; apply N.mod_lt; discriminate. Qed.
+
+Lemma val_octs4 a : a < 4294967296 -> val (octs4 a) = a.
+Proof.
+  intros H. unfold octs4. cbn [val length p256].
+  pose proof (N.div_mod a 256 ltac:(discriminate)) as E0.
+  pose proof (N.div_mod (a / 256) 256 ltac:(discriminate)) as E1.
+  pose proof (N.div_mod (a / 65536) 256 ltac:(discriminate)) as E2.
+  pose proof (N.div_mod (a / 16777216) 256 ltac:(discriminate)) as E3.
+  rewrite N.div_div in E1 by discriminate. change (256 * 256) with 65536 in E1.
+  rewrite N.div_div in E2 by discriminate. change (65536 * 256) with 16777216 in E2.
+  rewrite N.div_div in E3 by discriminate. change (16777216 * 256) with 4294967296 in E3.
+  rewrite (N.div_small a 4294967296 H) in E3.
+  pose proof (N.mod_lt (a / 16777216) 256 ltac:(discriminate)).
+  lia.
+Qed.
+
+Theorem pattern_range4_ok p lo hi :
+  pattern_range4 p = Some (lo, hi) ->
+  forall a, a < 2 ^ 32 -> (pat_matches p (show4 a) = true <-> lo <= a /\ a < hi).
+Proof.
+  intros H a Ha. destruct (prange4_ok _ _ _ _ _ H) as [_ M].
+  specialize (M (octs4 a) eq_refl (octs4_ok a)).
+  change (2 ^ 32) with 4294967296 in Ha. rewrite (val_octs4 a Ha) in M.
+  cbn [N.mul] in M. exact M.
 Qed.
